@@ -7,6 +7,8 @@ CLAIMED = {
  "C19": ("other", "All clauses of the property are control-flow facts of http/proxy_server.go; each is decided on every path (only door to the application, request classification with per-path phi resolution, primary-only forwarding of writes, wait-for-position dominance, cookie read after the upstream call). Does NOT decide that the application's write has committed when it answers.", "DESIGN.md section 4 C19",
          "CFG guarded-by / no-path rules with path enumeration and phi resolution, who-may-call, origin rendering over go/ssa"),
 }
+CLAIMED["C07"] = ("other", "Write-authority gates as structure: the DB/Store methods reachable from the fuse and http packages are discovered; each one reaching a file-system mutation must be a confirmed gated mutator (every path entry->first effect passes the true branch of Writeable()/IsPrimary(), refusing branch returns ErrReadOnlyReplica) or a confirmed exception; plus re-check after the last blocking call before publishing, errno mapping (sibling agreement), import bound to the primary context, modes, closed caller sets of setPos/ApplyLTXNoLock. Does NOT decide demotion schedules relative to in-flight transactions.", "DESIGN.md section 4 C07, section 3.3",
+  "entry-point discovery over the call graph vs. confirmed tables, CFG guarded-by rules, sibling agreement, origin rendering over go/ssa")
 REASONS = {}
 def main():
     checks=[]
